@@ -353,7 +353,41 @@ def rule_dispatch(chk, idx):
 # ---------------------------------------------------------------------------------------------------
 # C11.keys / C11.producer
 
-def resolution_writes(fn, ev):
+def dict_returning_helper(idx, mod, cls, call):
+    """the dict literal a call stands for when the callee - a method of the same class hierarchy (self.m / Class.m) or a
+    module-level function - consists of a single `return {<literal>}`; parameters are substituted by the call's arguments"""
+    f = call.func
+    target = None
+    if isinstance(f, ast.Attribute) and isinstance(f.value, ast.Name) and cls is not None:
+        if f.value.id in ('self', 'cls'):
+            _, target = idx.find_method(cls, f.attr)
+        else:
+            c2 = idx.resolve_class(mod, f.value)
+            if c2 is not None:
+                _, target = idx.find_method(c2, f.attr)
+    elif isinstance(f, ast.Name):
+        r = idx.resolve(mod, f.id)
+        if r and r[0] == 'func':
+            target = r[2]
+    if target is None:
+        return None
+    body = [st for st in target.body if not (isinstance(st, ast.Expr) and isinstance(st.value, ast.Constant))]
+    if len(body) != 1 or not isinstance(body[0], ast.Return) or not isinstance(body[0].value, ast.Dict):
+        return None
+    params = [a.arg for a in target.args.args if a.arg not in ('self', 'cls')]
+    if call.keywords or len(call.args) != len(params):
+        return None
+    subst = dict(zip(params, call.args))
+
+    class Sub(ast.NodeTransformer):
+        def visit_Name(self, n):
+            return subst.get(n.id, n) if isinstance(n.ctx, ast.Load) else n
+
+    import copy
+    return ast.fix_missing_locations(Sub().visit(copy.deepcopy(body[0].value)))
+
+
+def resolution_writes(fn, ev, inline=None):
     """[(which, key, value node, line)] for writes into <x>.future_resolution / <x>.past_resolution"""
     out = []
     for n in own_walk(fn):
@@ -364,6 +398,10 @@ def resolution_writes(fn, ev):
                     out.append((t.value.attr.split('_')[0], ev(t.slice), n.value, n.lineno, t.slice))
                 elif isinstance(t, ast.Attribute) and t.attr in ('future_resolution', 'past_resolution'):
                     v = n.value
+                    if isinstance(v, ast.Call) and inline is not None:
+                        lit = inline(v)
+                        if lit is not None:
+                            v = lit
                     if isinstance(v, ast.Dict):
                         for kx, vx in zip(v.keys, v.values):
                             out.append((t.attr.split('_')[0], ev(kx) if kx is not None else NOVAL, vx, n.lineno, kx))
@@ -416,7 +454,7 @@ def rule_keys(chk, idx, merged_parsers):
             writes = []
             for name, fn in cls.methods.items():
                 ev = make_evalc(idx, mod, cls)
-                for wr in resolution_writes(fn, ev):
+                for wr in resolution_writes(fn, ev, lambda call, _m=mod, _c=cls: dict_returning_helper(idx, _m, _c, call)):
                     writes.append((name,) + wr)
             if not writes:
                 continue
@@ -479,10 +517,31 @@ def rule_keys(chk, idx, merged_parsers):
 # ---------------------------------------------------------------------------------------------------
 # C11.templates
 
-def template_nf(node, params):
-    """f-string / concatenation -> list of ('lit', text) | ('fld', '<p>.attr' or name, spec) | ('call', name, arg)"""
+def _merge_lits(parts):
+    out = []
+    for p_ in parts:
+        if p_[0] == 'lit' and out and out[-1][0] == 'lit':
+            out[-1] = ('lit', out[-1][1] + p_[1])
+        elif not (p_[0] == 'lit' and p_[1] == ''):
+            out.append(p_)
+    return out
+
+
+def template_nf(node, params, ev=None, locals_=None, depth=0):
+    """f-string / concatenation -> list of ('lit', text) | ('fld', '<p>.attr' or name, spec) | ('call', name, args).
+    Constants (Constants.X, class attributes of the owner, module names) are evaluated through `ev`; a local bound exactly
+    once to an expression (`locals_`) is replaced by that expression before normalising."""
+    locals_ = locals_ or {}
+    if depth > 6:
+        return [('expr', ast.unparse(node), '')]
     if isinstance(node, ast.Constant) and isinstance(node.value, str):
         return [('lit', node.value)]
+    if isinstance(node, ast.Name) and node.id in locals_ and node.id not in params:
+        return template_nf(locals_[node.id], params, ev, locals_, depth + 1)
+    if ev is not None and isinstance(node, (ast.Attribute, ast.Name)) and not (isinstance(node, ast.Name) and node.id in params):
+        v = ev(node)
+        if isinstance(v, str):
+            return [('lit', v)]
     if isinstance(node, ast.JoinedStr):
         out = []
         for v in node.values:
@@ -495,24 +554,36 @@ def template_nf(node, params):
                     out.append(('fld', val.attr, spec))
                 elif isinstance(val, ast.Name) and val.id in params:
                     out.append(('fld', 'arg%d' % params.index(val.id), spec))
+                elif spec == '' and v.conversion == -1 and (
+                        (isinstance(val, ast.Name) and val.id in locals_) or isinstance(val, (ast.Call, ast.BinOp, ast.JoinedStr))
+                        or (ev is not None and isinstance(ev(val), str))):
+                    out.extend(template_nf(val, params, ev, locals_, depth + 1))      # str(x) of a string expression is x
                 elif isinstance(val, ast.Attribute) and isinstance(val.value, ast.Name) and val.value.id == 'Constants':
                     out.append(('const', val.attr, spec))
                 else:
                     out.append(('expr', ast.unparse(val), spec))
-        return out
+        return _merge_lits(out)
     if isinstance(node, ast.BinOp) and isinstance(node.op, ast.Add):
-        return template_nf(node.left, params) + template_nf(node.right, params)
+        return _merge_lits(template_nf(node.left, params, ev, locals_, depth + 1) + template_nf(node.right, params, ev, locals_, depth + 1))
     if isinstance(node, ast.Call):
         args = []
-        for a in node.args:
-            args.append('arg%d' % params.index(a.id) if isinstance(a, ast.Name) and a.id in params else ast.unparse(a))
+        for a_ in node.args:
+            args.append('arg%d' % params.index(a_.id) if isinstance(a_, ast.Name) and a_.id in params else ast.unparse(a_))
         return [('call', callee_name(node), tuple(args))]
     return [('expr', ast.unparse(node), '')]
 
 
-def returns_nf(fn):
+def returns_nf(fn, ev=None):
     params = [a.arg for a in fn.args.args if a.arg not in ('self', 'cls')]
-    return [template_nf(r.value, params) for r in ast.walk(fn) if isinstance(r, ast.Return) and r.value is not None]
+    binds = {}
+    for n in ast.walk(fn):
+        if isinstance(n, (ast.Assign, ast.AnnAssign, ast.AugAssign)):
+            for t in (n.targets if isinstance(n, ast.Assign) else [n.target]):
+                if isinstance(t, ast.Name):
+                    binds.setdefault(t.id, []).append(n)
+    single = {k: v[0].value for k, v in binds.items()
+              if len(v) == 1 and isinstance(v[0], (ast.Assign, ast.AnnAssign)) and v[0].value is not None and k not in params}
+    return [template_nf(r.value, params, ev, single) for r in ast.walk(fn) if isinstance(r, ast.Return) and r.value is not None]
 
 
 def render(nf, fields):
@@ -545,10 +616,11 @@ def rule_templates(chk, idx):
                   'equal format_date(DateUtils.min_value)', floor=7)
     util = idx.cls(PKG + '.utilities.DateTimeFormatUtil')
     chk.consulted(util.mod.path)
+    uev = make_evalc(idx, util.mod, util)
     for name, want in sorted(WANT_TEMPLATES.items()):
         if name not in util.methods:
             raise AnalysisError('anchor vanished: DateTimeFormatUtil.%s' % name)
-        got = returns_nf(util.methods[name])
+        got = returns_nf(util.methods[name], uev)
         ok = sorted(map(repr, got)) == sorted(map(repr, want))
         chk.judge(ok, rid, util.mod.path, 'DateTimeFormatUtil.' + name, 'templates=%s' % sorted(map(show_nf, got)),
                   '%s no longer has the template(s) %s (found %s)' % (name, sorted(map(show_nf, want)), sorted(map(show_nf, got))),
@@ -562,7 +634,7 @@ def rule_templates(chk, idx):
     vals = [a.value for a in mv.args] + [0] * 7
     fields = dict(zip(('year', 'month', 'day', 'hour', 'minute', 'second'), vals))
     try:
-        rendered = render(returns_nf(util.methods['format_date'])[0], fields)
+        rendered = render(returns_nf(util.methods['format_date'], uev)[0], fields)
     except (ValueError, KeyError, IndexError):
         rendered = None
     consts = idx.cls(PKG + '.constants.Constants')
